@@ -54,6 +54,11 @@ var c17InFaults = []string{
 	// going on with block 2..k: the stale partial is discarded, the retransmission is a duplicate of the last accepted
 	// block (that record outlives the partial), and the continuation blocks have no open message to join
 	"t4-gap-dup",
+	// a full-size first block whose length character is corrupted DOWNWARDS to 50: the receiver takes 53 characters for
+	// the block, finds the checksum wrong and must listen until the line is silent before it answers NAK. The rest of
+	// the transmission (already on the line) contains an ENQ followed by the image of a valid single-block S5F1 for
+	// this receiver: it is part of the bad transmission, not line traffic
+	"bad-length-short-enq-tail",
 }
 
 func c17InTotal(env *fw.Env) int64 { return int64(env.Pick(1024, 24000)) }
@@ -239,7 +244,7 @@ func c17InGen(r *rand.Rand, g int64, cfg c17Cfg) (c17InCase, []c17Step) {
 		k = 2 + r.IntN(3)
 	case "block0-mid", "t4-gap-restart":
 		k = 3 + r.IntN(2)
-	case "t4-gap-dup":
+	case "t4-gap-dup", "bad-length-short-enq-tail":
 		k = 2 + r.IntN(3)
 	case "lone-block0":
 		k = 1
@@ -257,7 +262,7 @@ func c17InGen(r *rand.Rand, g int64, cfg c17Cfg) (c17InCase, []c17Step) {
 	c.K, c.LastLen = k, last
 	i := 1 + r.IntN(k)
 	switch c.Fault {
-	case "block0-start", "lone-block0", "stray-block0-same-header":
+	case "block0-start", "lone-block0", "stray-block0-same-header", "bad-length-short-enq-tail":
 		i = 1
 	case "block0-mid":
 		i = 2 + r.IntN(k-2) // never the E-bit block: a block 0 with E-bit is a lone single-block message
@@ -428,6 +433,19 @@ func c17InGen(r *rand.Rand, g int64, cfg c17Cfg) (c17InCase, []c17Step) {
 			}
 			c.Detail = fmt.Sprintf("length byte %d for %d", lb, n)
 			steps = append(steps, rawStep(raw, tag+"(bad length)"))
+			if c.Retransmit {
+				steps = append(steps, valid(b, tag+"(retransmitted)"))
+			}
+		case "bad-length-short-enq-tail":
+			ph := e4.Block{Header: e4.Header{Device: cfg.Dev, R: toLib.R, Stream: 5, Function: 1, E: true, Block: 1, System: [4]byte{0xFA, 0x17, byte(g >> 8), byte(g)}}, Body: []byte{0x41, 0x01, 'P'}}
+			copy(b.Body[100:], append([]byte{e4.ENQ}, ph.Wire()...)) // (the block is a full one: 244 body bytes; this IS the message's content)
+			raw := b.Wire()
+			raw[0] = 50
+			if _, perr := e4.ReceiverView(raw); perr == e4.OK {
+				raw[0] = 51
+			}
+			c.Detail = "length byte 50 for 254, ENQ + valid block image at body offset 100"
+			steps = append(steps, rawStep(raw, tag+"(length lowered, ENQ+block image in the rest)"))
 			if c.Retransmit {
 				steps = append(steps, valid(b, tag+"(retransmitted)"))
 			}
